@@ -61,6 +61,8 @@ def trunc_worlds(k):
     return ws[:k]
 
 
+HOSTILE_CWDS = [b"cw\\d ", b" lead", b"trail ", b"t\tab", b"nb\xc2\xa0", b"q'uote\"", b"\xff\xfe", b"\xc5\xbc\xc3\xb3\xc5\x82w'", b"a\\x41", b"nl\nx",
+                b"ideo\xe3\x80\x80", b"nel\xc2\x85", b"$HOME", b"#hash", b"-dash"]
 SHORT_ALPHABET = [b" ", b"\t", b"\n", b"\r", b"'", b'"', b"\\", b"$", b"*", b"#", b",", b":", b"\x80", b"\xc3\xa9", b"-", b".", b"a"]
 
 
@@ -118,6 +120,13 @@ def gen_cases(tier, seed):
         c = {"i": i, "kind": kind, "cfg": cfg, "world": world.to_json(), "roots": roots,
              "gflags": (["--isolate"] if nroots >= 2 and rng.random() < 0.4 else []) + (["-S"] if rng.random() < 0.2 else []),
              "seam_seed": rng.randint(1, 10**9)}
+        c["roots_last"] = rng.random() < 0.5
+        if kind == "roundtrip" and rng.random() < 0.4:
+            # `group` started in a working directory with a hostile name, roots given RELATIVE to it: the
+            # header's base directory must round-trip too, or inherited --isolate roots resolve elsewhere
+            c["hcwd"] = b2s(rng.choice(HOSTILE_CWDS))
+            if nroots >= 2 and "--isolate" not in c["gflags"]:
+                c["gflags"] = ["--isolate"] + c["gflags"]
         if kind == "chunked":
             c["chunk"] = rng.choice([1, 7, 4096])
             c["fmt"] = rng.choice(["default", "json"])
@@ -205,9 +214,15 @@ def run_case(case):
     viol = []
     kind = case["kind"]
     with core.RunDir("c10") as rd:
-        World.from_json(case["world"]).materialise(rd.world)
+        wroot = os.path.join(rd.wb(), s2b(case["hcwd"])) if case.get("hcwd") else rd.wb()
+        World.from_json(case["world"]).materialise(wroot)
         os.makedirs(os.path.join(rd.world, "T"), exist_ok=True)
-        roots = [os.path.join(rd.wb(), s2b(r)) for r in case["roots"]]
+        if case.get("hcwd"):
+            roots = [b"./" + s2b(r) for r in case["roots"]]  # relative to the hostile working directory
+            gcwd = wroot
+        else:
+            roots = [os.path.join(rd.wb(), s2b(r)) for r in case["roots"]]
+            gcwd = None
         env = _env(case)
         traces = []
 
@@ -219,13 +234,14 @@ def run_case(case):
             import shutil
             shutil.rmtree(rd.world)
             os.makedirs(rd.world)
-            World.from_json(case["world"]).materialise(rd.world)
+            World.from_json(case["world"]).materialise(wroot)
             os.makedirs(os.path.join(rd.world, "T"), exist_ok=True)
 
         ngroups = 0
         if kind == "roundtrip":
-            gj = ops.group(rd, roots, _gargs(case, "json"), env=env, seed=case["seam_seed"])
-            gt = ops.group(rd, roots, _gargs(case, "default"), env=env, seed=case["seam_seed"])
+            rl = bool(case.get("roots_last"))
+            gj = ops.group(rd, roots, _gargs(case, "json"), env=env, seed=case["seam_seed"], cwd=gcwd, roots_last=rl)
+            gt = ops.group(rd, roots, _gargs(case, "default"), env=env, seed=case["seam_seed"], cwd=gcwd, roots_last=rl)
             if gj.rc != 0 or gt.rc != 0:
                 return {"violations": [], "nontrivial": False, "sig": None, "probes": {"group_failed": 1}, "invocations": 2, "info": {}}
             repj = report.parse_json(gj.out)
